@@ -663,10 +663,7 @@ func (fr *frame) site() string {
 			return f.fn.String()
 		}
 	}
-	if fr.fn != nil {
-		return fr.fn.String()
-	}
-	return "?"
+	return "harness"
 }
 
 // executePhis executes the phi-nodes at the start of the current
